@@ -79,7 +79,7 @@ def nasty_strings(rnd, n):
     # displacement and immediate literals of every width from 8 to 20 digits, hexadecimal and decimal, on several operand shapes
     for nd in range(7, 21):
         for lit in ("0x1" + "0" * (nd - 2) + "ff", "0x" + "f" * nd, "1" + "0" * (nd - 1), "9" * nd, "0x8" + "0" * (nd - 1)):
-            for shape in ("mov rax, [rbx+%s]", "mov rax, [rbx-%s]", "add dword [rcx+rdx*2+%s], 1", "lea rax, [%s]", "mov rax, [4*rcx+%s]", "vpaddb ymm1, ymm2, [rax+%s]",
+            for shape in ("mov rax, [%s+rbx]", "add qword [%s+eax*8], 0x1122334455667788", "lea rcx, [%s+rax*8+rbx]", "mov rax, [rbx+%s]", "mov rax, [rbx-%s]", "add dword [rcx+rdx*2+%s], 1", "lea rax, [%s]", "mov rax, [4*rcx+%s]", "vpaddb ymm1, ymm2, [rax+%s]",
                           "jmp [rax+r9*8+%s]", "add rax, %s", "push %s", "mov eax, %s", "jmp %s", "mov qword [rax], %s"):
                 out.append(shape % lit)
     for ln in (97, 98, 99, 100, 101, 102, 150, 1000):
@@ -118,7 +118,7 @@ def run(prop, tier, replay=None):
             keep = set(idx[:2500])
             inputs = [x for k, x in enumerate(inputs) if k in keep or x["ab"]["kept"] in (98, 99, 100, 101)]
         recs = [{"id": "cap-%d" % k, "prop": "C09", "status": "Unconstrained", "text": render_abstract(x["ab"]), "ab": x["ab"], "model": x["model"]} for k, x in enumerate(inputs)]
-        for k, s in enumerate(nasty_strings(rnd, 12500 if tier == "quick" else 300000)):
+        for k, s in enumerate(nasty_strings(rnd, 13500 if tier == "quick" else 300000)):
             recs.append({"id": "str-%d" % k, "prop": "C09", "status": "Unconstrained", "text": s.replace("\x00", " ")})
         # well-formed lines are inputs too: a class-covering sample of every TLC-enumerated corpus (the encoder paths run instrumented)
         nval = 0
